@@ -29,7 +29,7 @@ ASSUMPTIONS = ['det_hash (sha256 of the JSON of its arguments) is injective on t
                'Use._CACHE is cleared between cases (it is process-global)']
 
 FUNC_NAMES = ['f', 'f', 'g', '<lambda>', '<lambda>', 'post']
-KEYS = ['result', 'result', 'other', None]
+KEYS = ['result', 'result', 'other', None, 0, '']      # 0 and '' are keys like any other (only None is special)
 FOODS = ['egg', 'spam', 'bacon']
 
 
@@ -84,7 +84,13 @@ def gen(rng, tier, run):
             ops.append(op)
             oks.append(len(ops) - 1)
         elif r < 0.55 or nfac == 0:
-            ops.append(['factory', rng.choice(['echo', 'echo', 'cat']), [['food', rng.choice(FOODS)], ['side', 'x']]])
+            fac = ['factory', rng.choice(['echo', 'echo', 'cat']), [['food', rng.choice(FOODS)], ['side', 'x']]]
+            if rng.random() < 0.35:
+                # dependencies given to the factory itself: every task it makes (and every task made by its copies) has them
+                bases = [i for i, o in enumerate(ops) if o[0] == 'base']
+                fac.append([rng.sample(bases, rng.randrange(0, min(2, len(bases)) + 1)),
+                            rng.sample(bases, rng.randrange(0, min(2, len(bases)) + 1))])
+            ops.append(fac)
             nfac += 1
         elif r < 0.6:
             ops.append(['copy', rng.randrange(nfac)])
@@ -203,12 +209,17 @@ def make_base(base, calls):
 _JOBS = [0]
 
 
+def skey(key):
+    """keys as the model and the oracle write them: None, or the text of the key (0 -> '0'; '0' is never generated)"""
+    return key if key is None else str(key)
+
+
 def tok(val):
     """canonical form of an injected value"""
     if isinstance(val, tuple) and len(val) == 2 and isinstance(val[1], dict):
         return [val[0], None]          # key=None: the (task_name, task_env) pair
     if isinstance(val, list) and val and val[0] == 'tok':
-        return [val[1], val[2]]
+        return [val[1], skey(val[2])]
     if isinstance(val, tuple) and val and val[0] == 'ret':
         return ['ret', val[1]]
     return repr(val)
@@ -338,9 +349,13 @@ def run_impl(case, run):
                             if again is not res:
                                 out['again'] = discover(again)
                 elif name == 'factory':
+                    fkw = dict(op[2])
+                    if len(op) > 3:
+                        fkw['deps'] = [resolve(t) for t in op[3][0]]
+                        fkw['soft_deps'] = [resolve(t) for t in op[3][1]]
                     factories.append(RunTaskFactory.from_executable(
                         '/bin/sh', name=op[1], default_args=['-c', 'echo "$VJ" "$@"', 'sh', '{food}', '{side}'],
-                        **dict(op[2])))
+                        **fkw))
                     out = len(factories) - 1
                 elif name == 'copy':
                     factories.append(factories[op[1]].copy())
@@ -421,7 +436,8 @@ def run_impl(case, run):
         # behaviour of every task object
         env = {}
         for tsk in objs:
-            env[tsk.name] = {'result': ['tok', tsk.name, 'result'], 'other': ['tok', tsk.name, 'other']}
+            env[tsk.name] = {'result': ['tok', tsk.name, 'result'], 'other': ['tok', tsk.name, 'other'],
+                             0: ['tok', tsk.name, 0], '': ['tok', tsk.name, '']}
         behaviours = []
         for tid, tsk in enumerate(objs):
             deps = sorted(ids[id(d)] for d in tsk.depends_on if id(d) in ids)
@@ -457,8 +473,34 @@ def run_impl(case, run):
 # model
 # ------------------------------------------------------------------------------------------------
 
+def effective(case):
+    """the same history with the dependencies given to a factory (inherited by its copies) written into every request made
+    through it: `RunTask(deps=self.deps + deps, ...)`"""
+    facdeps = []
+    ops = []
+    for op in case['ops']:
+        if op[0] == 'factory':
+            facdeps.append(op[3] if len(op) > 3 else [[], []])
+            op = op[:3]
+        elif op[0] == 'copy':
+            facdeps.append(facdeps[op[1]])
+        elif op[0] == 'use':
+            op = list(op)
+            op[2] = [[t, skey(k)] for t, k in op[2]]
+            op[3] = [[kw, t, skey(k)] for kw, t, k in op[3]]
+        elif op[0] in ('make', 'userun'):
+            o = 2 if op[0] == 'make' else 3
+            fdeps, fsoft = facdeps[op[1]]
+            op = list(op)
+            op[o + 4] = list(fdeps) + list(op[o + 4])
+            op[o + 5] = list(fsoft) + list(op[o + 5])
+        ops.append(op)
+    return dict(case, ops=ops)
+
+
 def run_model(case, driver, run):
     """op-index references are resolved with the model's own results"""
+    case = effective(case)
     ops = []
     results = []
     # the driver works on task ids: resolve incrementally by asking the model prefix by prefix would be quadratic;
@@ -557,6 +599,7 @@ def compare(case, impl, model):
 # ------------------------------------------------------------------------------------------------
 
 def oracle(case, impl, run):
+    case = effective(case)
     fails = []
     outs = impl['outs']
     reqs = {}          # op index -> canonical request (with references resolved to task ids)
